@@ -5,7 +5,7 @@
                         the feedback (chunks expanded to per-offset status, deltas
                         accumulated) + own send history. *)
 From IV Require Import Base.Word Base.F64 Model.Ntp.
-From IV Require Export Model.FbAdapter.
+From IV Require Export Model.FbAdapter Spec.FbSpec Model.RtpfbConvert Model.RtpfbHistory.
 From Coq Require Import ZifyBool.
 Ltac Zify.zify_post_hook ::= Z.div_mod_to_equations.
 
@@ -85,28 +85,9 @@ Definition cc_mismatches (cases : list cc_case) : list nat :=
 
 (* ================= specification oracle ================= *)
 
-(* what a send records, per the property text: TWCC keying (ssrc 0, transport
-   sequence number, header + payload size) or (SSRC, RTP sequence number) *)
-Definition sent_record (o : op) : list ack :=
-  match o with
-  | Sent extid twcc ssrc seq hsize size dep =>
-      if extid =? 0 then [(seq, ssrc, size, dep, 0, 0)]
-      else match twcc with Some t => [(t, 0, hsize + size, dep, 0, 0)] | None => [] end
-  | _ => []
-  end.
-
-(* most recent first, one record per key: the first occurrence wins *)
-Fixpoint dedup (l : list ack) : list ack :=
-  match l with
-  | [] => []
-  | a :: t => a :: hremove (dedup t) (ack_ssrc a) (ack_seq a)
-  end.
-
-(* the oracle's history: the 250 most recently sent distinct packets,
+(* the oracle's history: the 250 most recently sent distinct packets (Spec.FbSpec.recent),
    [rsends] = records of the sends so far, most recent first *)
-Definition ohist (rsends : list ack) : list ack := firstn 250 (dedup rsends).
-
-Definition symbols (cs : list chunk) : list Z := flat_map chunk_syms cs.
+Definition ohist (rsends : list ack) : list ack := recent 250 rsends.
 
 (* per offset: Some arrival for delta-carrying symbols, None otherwise
    (Some 0 when the packet carries fewer deltas than symbols - cannot happen
@@ -261,3 +242,211 @@ Fixpoint codes_of {A} (f : A -> list nat) (cases : list A) (i : nat) : list (nat
   end.
 
 Definition cc_spec_failures (cases : list cc_case) : list (nat * nat) := codes_of cc_case_codes cases 0.
+
+(* ====================== pkg/rtpfb ====================== *)
+
+(* ntp.ToTime32(ReportTimestamp, now) in ns since the zero Time *)
+Definition reft32 (ts now : Z) : Z := ToTime32 ts (now - EPOCH) + EPOCH.
+
+(* times of the rtpfb cases are printed as 2*t (t = ns since the zero Time) or, for
+   present-day instants, as 2*(t - TBASE) + 1: fewer digits to parse *)
+Definition TBASE : Z := EPOCH + 1700000000 * 1000000000.
+Definition dect (n : Z) : Z := if Z.even n then n / 2 else TBASE + (n - 1) / 2.
+
+Inductive rcop :=
+| RS (tw : bool) (ext : option Z) (ssrc rtpseq size now : Z)
+| RRun (tw : bool) (ssrc rtpseq0 twseq0 size now0 dnow n : Z)       (* n consecutive packets of one stream *)
+| RTw (now base count ref24 : Z) (cs : list chunk) (ds : list Z)      (* one read holding one TWCC packet *)
+| RCf (now ts : Z) (bs : list (Z * Z * list Z))                       (* one read holding one CCFB packet *)
+| RMulti (now : Z) (pkts : list fbpkt).                               (* compound / other RTCP *)
+
+Fixpoint rsend_run (tw : bool) (ssrc rtpseq0 twseq0 size now0 dnow : Z) (i : Z) (n : nat) : list rop :=
+  match n with
+  | O => []
+  | S n' => RSend tw (if tw then Some (add16 twseq0 i) else None) ssrc (add16 rtpseq0 i) (size + i mod 5) (now0 + i * dnow)
+            :: rsend_run tw ssrc rtpseq0 twseq0 size now0 dnow (i + 1) n'
+  end.
+
+Definition rexpand (c : rcop) : list rop :=
+  match c with
+  | RS tw ext ssrc rtpseq size now => [RSend tw ext ssrc rtpseq size (dect now)]
+  | RRun tw ssrc rtpseq0 twseq0 size now0 dnow n => rsend_run tw ssrc rtpseq0 twseq0 size (dect now0) dnow 0 (Z.to_nat n)
+  | RTw now base count ref24 cs ds => [RRead (dect now) [FTw base count ref24 cs ds]]
+  | RCf now ts bs => [RRead (dect now) [FCf ts (map rb_of bs)]]
+  | RMulti now pkts => [RRead (dect now) pkts]
+  end.
+
+(* reports are printed flat, ten numbers per PacketReport *)
+Definition zb (z : Z) : bool := negb (z =? 0).
+Fixpoint unflat_rep (l : list Z) (fuel : nat) : list prep :=
+  match fuel, l with
+  | S f, a :: b :: c :: d :: e :: g :: h :: i :: j :: k :: t =>
+      mkPrep a b c (zb d) e g (dect h) (zb i) (dect j) k :: unflat_rep t f
+  | _, _ => []
+  end.
+
+Definition prep_eqb (x y : prep) : bool :=
+  (p_ssrc x =? p_ssrc y) && (p_ctr x =? p_ctr y) && (p_rtpseq x =? p_rtpseq y) &&
+  Bool.eqb (p_istwcc x) (p_istwcc y) && (p_twseq x =? p_twseq y) && (p_size x =? p_size y) &&
+  (p_dep x =? p_dep y) && Bool.eqb (p_arrived x) (p_arrived y) && (p_arrival x =? p_arrival y) &&
+  (p_ecn x =? p_ecn y).
+
+(* a case: operations and, for every read, the PacketReports of the Report attribute ([] = no attribute) *)
+Definition fb_case := (list rcop * list (list Z))%type.
+
+Definition is_read (o : rop) : bool := match o with RRead _ _ => true | _ => false end.
+
+Fixpoint read_outs (ops : list rop) (outs : list (list prep)) : list (list prep) :=
+  match ops, outs with
+  | o :: ops', r :: outs' => (if is_read o then [r] else []) ++ read_outs ops' outs'
+  | _, _ => []
+  end.
+
+Definition fb_model_ok (c : fb_case) : bool :=
+  let '(cops, outs) := c in
+  let ops := flat_map rexpand cops in
+  list_eqb (list_eqb prep_eqb) (read_outs ops (rrun reft32 h_init ops))
+           (map (fun l => unflat_rep l (length l)) outs).
+
+Definition fb_mismatches (cases : list fb_case) : list nat :=
+  find_idx (fun c => negb (fb_model_ok c)) cases 0.
+
+(* ---- specification oracle for the aggregating receiver ----
+   own send log, own decode of every feedback packet, own report cursor *)
+Record osend := mkOS { os_ctr : Z; os_tw : bool; os_twseq : Z; os_ssrc : Z; os_rtpseq : Z; os_size : Z; os_dep : Z }.
+
+Record ostate := mkO {
+  o_sends : list osend;                       (* most recent first *)
+  o_status : list (Z * (bool * Z * Z));       (* counter -> latest (arrived, arrival, ecn), most recent first *)
+  o_next : Z;                                 (* every counter below has been reported *)
+  o_hi : option Z;                            (* highest counter ever acknowledged as arrived *)
+  o_n : Z }.                                  (* packets sent *)
+
+Fixpoint lookup_tw (l : list osend) (seq : Z) : option Z :=
+  match l with
+  | [] => None
+  | s :: t => if os_tw s && (os_twseq s =? seq) then Some (os_ctr s) else lookup_tw t seq
+  end.
+Fixpoint lookup_cf (l : list osend) (ssrc seq : Z) : option Z :=
+  match l with
+  | [] => None
+  | s :: t => if negb (os_tw s) && (os_ssrc s =? ssrc) && (os_rtpseq s =? seq) then Some (os_ctr s) else lookup_cf t ssrc seq
+  end.
+
+(* a status for counter c: applies if the packet is not reported yet *)
+Definition o_apply (st : ostate) (c : option Z) (v : bool * Z * Z) : ostate :=
+  match c with
+  | None => st
+  | Some c =>
+      if c <? o_next st then st
+      else mkO (o_sends st) ((c, v) :: o_status st) (o_next st)
+               (if fst (fst v) then match o_hi st with Some h => Some (Z.max h c) | None => Some c end else o_hi st)
+               (o_n st)
+  end.
+
+(* TWCC: offsets below the status count only; status of offset k is symbol k *)
+Fixpoint o_twcc (st : ostate) (seq k count : Z) (syms : list Z) (arrs : list (option Z)) : ostate :=
+  match syms, arrs with
+  | s :: syms', ar :: arrs' =>
+      if k <? count then
+        let v := if s =? 0 then Some (false, 0, 0)
+                 else if is_delta_sym s then Some (true, match ar with Some t => t | None => 0 end, 0)
+                 else if s =? 3 then Some (true, 0, 0) else None in
+        o_twcc (match v with Some v => o_apply st (lookup_tw (o_sends st) seq) v | None => st end)
+               (add16 seq 1) (k + 1) count syms' arrs'
+      else st
+  | _, _ => st
+  end.
+
+Fixpoint o_ccfb_block (st : ostate) (rt ssrc seq : Z) (mbs : list mblock) : ostate :=
+  match mbs with
+  | [] => st
+  | (recv, ecn, ato) :: mbs' =>
+      let v := if recv : bool then (true, (if ato =? 8191 then 0 else rt - ato * 1000000000 / 1024), ecn) else (false, 0, 0) in
+      o_ccfb_block (o_apply st (lookup_cf (o_sends st) ssrc seq) v) rt ssrc (add16 seq 1) mbs'
+  end.
+
+Definition o_pkt (now : Z) (st : ostate) (f : fbpkt) : ostate :=
+  match f with
+  | FTw base count ref24 cs ds =>
+      let syms := symbols cs in o_twcc st base 0 count syms (arrivals (ref24 * 64000000) syms ds)
+  | FCf ts bs =>
+      fold_left (fun s (b : rblock) => let '(ssrc, begin, mbs) := b in o_ccfb_block s (reft32 ts now) ssrc begin mbs) bs st
+  | FOther => st
+  end.
+
+Definition o_find_send (l : list osend) (c : Z) : option osend := find (fun s => os_ctr s =? c) l.
+
+Definition o_report (st : ostate) : ostate * list prep :=
+  match o_hi st with
+  | None => (st, [])
+  | Some h =>
+      if h <? o_next st then (st, [])
+      else
+        let cs := zrange (o_next st) (Z.to_nat (h - o_next st + 1)) in
+        (mkO (o_sends st) (o_status st) (h + 1) (o_hi st) (o_n st),
+         flat_map (fun c => match o_find_send (o_sends st) c with
+                            | None => []
+                            | Some s =>
+                                let '(a, t, e) := match find1 c (o_status st) with Some v => v | None => (false, 0, 0) end in
+                                [mkPrep (os_ssrc s) c (os_rtpseq s) (os_tw s) (os_twseq s) (os_size s) (os_dep s) a t e]
+                            end) cs)
+  end.
+
+(* codes
+    31 a packet is reported twice or out of send order (counter not above every earlier reported one)
+    32 a reported packet was never sent, or its SSRC / sequence numbers / size / departure differ from the send
+    33 status, arrival time or ECN differ from what the latest feedback about that packet encodes
+    34 the set of packets in the report differs from [cursor, highest acknowledged]
+    36 (F15, known) IsTWCC is false for a packet tracked by its TWCC sequence number *)
+Definition static_eqb (x y : prep) : bool :=
+  (p_ssrc x =? p_ssrc y) && (p_ctr x =? p_ctr y) && (p_rtpseq x =? p_rtpseq y) &&
+  (p_twseq x =? p_twseq y) && (p_size x =? p_size y) && (p_dep x =? p_dep y).
+Definition status_eqb (x y : prep) : bool :=
+  Bool.eqb (p_arrived x) (p_arrived y) && (p_arrival x =? p_arrival y) && (p_ecn x =? p_ecn y).
+
+Fixpoint increasing_from (last : Z) (l : list prep) : bool * Z :=
+  match l with
+  | [] => (true, last)
+  | p :: t => if last <? p_ctr p then increasing_from (p_ctr p) t else (false, last)
+  end.
+
+Fixpoint cmp_reports (sends : list osend) (exp got : list prep) : list nat :=
+  match exp, got with
+  | [], [] => []
+  | e :: exp', g :: got' =>
+      if p_ctr e =? p_ctr g then
+        (if static_eqb e g then [] else [32%nat]) ++ (if status_eqb e g then [] else [33%nat]) ++
+        (if Bool.eqb (p_istwcc e) (p_istwcc g) then [] else [36%nat]) ++ cmp_reports sends exp' got'
+      else [34%nat]
+  | _, _ => [34%nat]
+  end.
+
+Fixpoint fb_walk (st : ostate) (last : Z) (ops : list rop) (outs : list (list prep)) : list nat :=
+  match ops with
+  | [] => match outs with [] => [] | _ => [91%nat] end
+  | RSend tw ext ssrc rtpseq size now :: ops' =>
+      let c := o_n st in
+      let s := match tw, ext with
+               | true, Some t => mkOS c true t ssrc rtpseq size now
+               | _, _ => mkOS c false 0 ssrc rtpseq size now
+               end in
+      fb_walk (mkO (s :: o_sends st) (o_status st) (o_next st) (o_hi st) (c + 1)) last ops' outs
+  | RRead now pkts :: ops' =>
+      match outs with
+      | [] => [91%nat]
+      | got :: outs' =>
+          let '(st', exp) := o_report (fold_left (o_pkt now) pkts st) in
+          let '(inc, last') := increasing_from last got in
+          (if inc then [] else [31%nat]) ++
+          (if forallb (fun g => match o_find_send (o_sends st) (p_ctr g) with Some _ => true | None => false end) got
+           then [] else [32%nat]) ++
+          cmp_reports (o_sends st) exp got ++ fb_walk st' last' ops' outs'
+      end
+  end.
+
+Definition fb_case_codes (c : fb_case) : list nat :=
+  let '(cops, outs) := c in
+  nodup_nat (fb_walk (mkO [] [] 0 None 0) (-1) (flat_map rexpand cops) (map (fun l => unflat_rep l (length l)) outs)).
+
+Definition fb_spec_failures (cases : list fb_case) : list (nat * nat) := codes_of fb_case_codes cases 0.
